@@ -11,6 +11,7 @@ int g; int ga[2]; S gs;
 const int cg = 1; const int cga[2] = {0, 0}; const S cgs = {0, 0};
 int i; bool b; clock x;
 chan cs[4];
+double gd; bool gb; const double cgd = 1.0; const bool cgb = true;
 """
 TGT = {("global", "scalar"): "g", ("global", "elem"): "ga[0]", ("global", "field"): "gs.f",
        ("local", "scalar"): "l", ("local", "elem"): "la[0]", ("local", "field"): "ls.f",
@@ -19,10 +20,13 @@ TGT = {("global", "scalar"): "g", ("global", "elem"): "ga[0]", ("global", "field
 for _t, _n in (("global", "g"), ("local", "l2"), ("valparam", "p"), ("refparam", "r")):
     TGT[(_t, "condl")] = "(q == 0 ? l : %s)" % _n
     TGT[(_t, "condr")] = "(q == 0 ? %s : l)" % _n
-PARAM = {"scalar": "int %s%s", "elem": "int %s%s[2]", "field": "S %s%s"}
-GLOB = {"scalar": "g", "elem": "ga", "field": "gs"}
-CGLOB = {"scalar": "cg", "elem": "cga", "field": "cgs"}   # constants: arguments of the write-free twins (compile-time contexts)
-LOC = {"scalar": "l", "elem": "la", "field": "ls"}
+# written objects of other types: the may-write analysis does not depend on the type of what is written
+for _sh, _g, _l in (("dscalar", "gd", "ld"), ("bscalar", "gb", "lb")):
+    TGT[("global", _sh)], TGT[("local", _sh)], TGT[("valparam", _sh)], TGT[("refparam", _sh)] = _g, _l, "p", "r"
+PARAM = {"scalar": "int %s%s", "elem": "int %s%s[2]", "field": "S %s%s", "dscalar": "double %s%s", "bscalar": "bool %s%s"}
+GLOB = {"scalar": "g", "elem": "ga", "field": "gs", "dscalar": "gd", "bscalar": "gb"}
+CGLOB = {"scalar": "cg", "elem": "cga", "field": "cgs", "dscalar": "cgd", "bscalar": "cgb"}   # constants: arguments of the write-free twins (compile-time contexts)
+LOC = {"scalar": "l", "elem": "la", "field": "ls", "dscalar": "ld", "bscalar": "lb"}
 for _d in (PARAM, GLOB, CGLOB, LOC):
     for _s in ("condl", "condr"):
         _d[_s] = _d["scalar"]
@@ -64,10 +68,10 @@ def render_family(fam, name, twin=False):
         if ref:
             return PARAM[sh] % ("" if twin else "&", "r")
         return ""
-    locals_ = "int q = 0; int l = 0; int l2 = 0; int la[2]; S ls;"
+    locals_ = "int q = 0; int l = 0; int l2 = 0; int la[2]; S ls; double ld; bool lb;"
     for k, st in enumerate(fam):
         if k == 0:
-            e = "q" if twin else WF[st["wf"]] % TGT[(t, sh)]
+            e = "q" if twin else (WF[st["wf"]] % TGT[(t, sh)]).replace("= 1", "= true" if sh == "bscalar" else "= 1")
         else:
             if t == "valparam":
                 arg = (CGLOB if twin else GLOB)[sh]
@@ -155,6 +159,8 @@ def run(tier):
         add_case(n, f, "guard", False)
     for n in rep:
         for ctx in all_ctx:
+            if ctx.startswith("query_") and fams[n]["fam"][0]["shape"] == "dscalar" and fams[n]["fam"][0]["target"] in ("valparam", "refparam"):
+                continue        # the context's call passes a double: symbolic queries exclude doubles, whatever the function does
             if ctx != "guard":
                 add_case(n, fams[n], ctx, False)
             add_case(n, fams[n], ctx, True)
